@@ -36,7 +36,7 @@ Compile ==
     /\ IsEvent("Compile")
     /\ \E n \in {E.node} :
        \* children are compiled before their parents
-       /\ \A i \in 1..Len(n.trans) : n.trans[i][3] = 0 \/ n.trans[i][3] \in DOMAIN at
+       /\ TRUE = (\A i \in 1..Len(n.trans) : n.trans[i][3] = 0 \/ n.trans[i][3] \in DOMAIN at)
        /\ CASE E.kind = 0 -> /\ IsEmptyFinal(n) /\ E.addr = 0
                              /\ UNCHANGED <<at, lastEmit>>
             \* HitSound: a cache hit returns the address of an identical node
@@ -45,9 +45,9 @@ Compile ==
                              /\ UNCHANGED <<at, lastEmit>>
             [] E.kind = 2 -> /\ ~IsEmptyFinal(n)
                              /\ E.addr \notin DOMAIN at
-                             /\ \A a \in DOMAIN at : a < E.start
+                             /\ TRUE = (\A a \in DOMAIN at : a < E.start)
                              \* Backward: transitions point to earlier nodes
-                             /\ \A i \in 1..Len(n.trans) : n.trans[i][3] < E.start
+                             /\ TRUE = (\A i \in 1..Len(n.trans) : n.trans[i][3] < E.start)
                              \* NoDupUnlessEvicted: an equal node is emitted again only if
                              \* the cache evicted something since its last emission
                              /\ (n \in DOMAIN lastEmit /\ cells # 0 => evs > lastEmit[n])
